@@ -559,14 +559,16 @@ class CbEqAny(OddCallable):
 
 
 CB_ODD = {"falsy": CbFalsy, "len0": CbLen0, "boolraises": CbBoolRaises, "eqraises": CbEqRaises, "eqany": CbEqAny}
-# where the unchanged attrs accepts such an object and uses it (probed; elsewhere attrib() truth-tests / compares its
-# argument itself -- `if validator and isinstance(...)`, `if converter and ...` -- and a falsy single validator is not
-# run at all, see the C02 report): role -> kinds
+# where attrs accepts such an object and uses it (probed).  A falsy callable given as THE validator of a field runs like
+# any other since the repair of K02a (`_attrs_to_init_script`, `setters.validate` / `setters.convert` judged a validator /
+# converter by truthiness); what is still left out: attrib() itself truth-tests its `validator=` / `converter=` argument
+# (`if validator and isinstance(...)`), so an object whose __bool__ RAISES cannot be given bare, and a converter whose
+# __eq__ raises cannot be given at all.  role -> kinds
 CB_ODD_OK = {
     "factory": ("falsy", "len0", "boolraises", "eqraises", "eqany"),
     "converter": ("falsy", "len0", "eqany"),
     "Converter": ("falsy", "len0", "boolraises", "eqany"),
-    "validator": ("eqraises", "eqany"),
+    "validator": ("falsy", "len0", "eqraises", "eqany"),
     "validator_list": ("falsy", "len0", "boolraises", "eqraises", "eqany"),
 }
 
